@@ -224,12 +224,12 @@ def rrSend (s : Sess) (afi safi res : Nat) : Response × Sess :=
           | none => (refused .sendFailed, s)       -- struct.error
         else (refused .afUnsupported, s)
 
-/-- BGP.send_bin_update: the octets go to the transport as they are, nothing is counted
-    (transport.write ignores an empty string) -/
+/-- BGP.send_bin_update: the octets go to the transport as they are and are counted as one UPDATE, like send_update
+    (transport.write ignores an empty string, and nothing is counted for one) -/
 def binSend (s : Sess) (b : Bytes) : Response × Sess :=
   match s.proto with
   | none => (refused .checkPostData, s)            -- AttributeError, caught by the view's `except Exception`
-  | some i => if b = [] then (ok .statusTrue, s) else (ok .statusTrue, s.writeOn i b)
+  | some i => if b = [] then (ok .statusTrue, s) else (ok .statusTrue, (s.writeOn i b).bumpSent i Sess.incUpdates)
 
 /-! ### the views -/
 
